@@ -201,10 +201,10 @@ pub fn large_case_strategy() -> impl Strategy<Value = Case> {
 }
 
 fn run(ctx: &Ctx) {
-    let n = ctx.share(ctx.tier.pick(1_200_000, 12_000_000));
+    let n = ctx.share(ctx.tier.pick(1_200_000, 40_000_000));
     let strat = (input_strategy(10, true), feed_strategy()).prop_map(|(input, feed)| Case { input, feed });
     ctx.run_cases("differential", n, strat, check);
-    let n = ctx.share(ctx.tier.pick(1_600, 16_000));
+    let n = ctx.share(ctx.tier.pick(1_600, 40_000));
     ctx.run_cases("differential-large", n, large_case_strategy(), check);
 }
 
